@@ -40,6 +40,7 @@ class TWorker(env.BaseWorker):
         self.trace = []  # op descriptors executed (for replay divergence checks / C09 reports)
         self.fault = None  # (site class, occurrence, errno name): one injected I/O error in this thread
         self.site_counts = {}
+        self._cf = None
         self.th = threading.Thread(target=self._run, daemon=True, name="hsverif-" + name)
 
     def _run(self):
@@ -92,23 +93,14 @@ class TWorker(env.BaseWorker):
     def _maybe_fault(self, op):
         if self.fault is None or self.abort:
             return
-        from . import engine_f
-        if not engine_f.is_fault_site(op):
-            return
-        import os as _os
-        k = engine_f.site_class(op)
-        n = self.site_counts.get(k, 0)
-        self.site_counts[k] = n + 1
-        dest = self.real[-1] if self.real else None
-        e = engine_f.ERRNOS[self.fault[2]]
-        if k == self.fault[0] and n == self.fault[1]:
+        if self._cf is None:
+            from . import engine_f
+            self._cf = engine_f.ClassFault(self.fault)
+        try:
+            self._cf.check(op, self.real)
+        except OSError:
             self.hist.update(b"FAULT")
-            if len(self.fault) > 3 and self.fault[3] and dest is not None:
-                self.persist = getattr(self, "persist", set()) | {dest}
-            raise OSError(e, _os.strerror(e) + " (injected)")
-        if dest is not None and dest in getattr(self, "persist", ()):
-            self.hist.update(b"FAULT")
-            raise OSError(e, _os.strerror(e) + " (injected, persistent)")
+            raise
 
     def obs(self, *x):
         self.hist.update(repr(x).encode())
